@@ -409,4 +409,113 @@ theorem attrs_capsOf (ctx : Ctx) (tpl : List Tok) (n : String) (hmem : Tok.ph (.
     simp only [userCaps, List.mem_filterMap]
     exact ⟨(.user n, keyStr ctx (.user n)), this, rfl⟩
 
+/-! ### Captured temporal fields for any template whose temporal placeholders are fillable -/
+
+theorem capsNumeric_capsOf_gen (ctx : Ctx) (hs : GoodTime ctx.s) (he : GoodTime ctx.e) :
+    ∀ (tpl : List Tok) (seen : List Key),
+      (∀ isEnd f, Tok.ph (.time isEnd f) ∈ tpl → fillable f = true) →
+      capsNumeric (capsOf ctx tpl seen) = true := by
+  intro tpl
+  induction tpl with
+  | nil => intro seen _; simp [capsOf, capsNumeric]
+  | cons t ts ih =>
+    intro seen hfill
+    have hts : ∀ isEnd f, Tok.ph (.time isEnd f) ∈ ts → fillable f = true :=
+      fun isEnd f h => hfill isEnd f (List.mem_cons_of_mem _ h)
+    cases t with
+    | lit c => simpa [capsOf] using ih seen hts
+    | star => simpa [capsOf] using ih seen hts
+    | ph k =>
+      simp only [capsOf]
+      split
+      · exact ih seen hts
+      · cases k with
+        | user n =>
+          have := ih (Key.user n :: seen) hts
+          simp only [capsNumeric, List.all_cons, Bool.true_and] at this ⊢
+          exact this
+        | time isEnd f =>
+          have ht := hfill isEnd f List.mem_cons_self
+          have hgt : GoodTime (if isEnd then ctx.e else ctx.s) := by cases isEnd <;> simpa
+          obtain ⟨_, _, sp⟩ := tstr_spec _ f hgt ht
+          have := ih (Key.time isEnd f :: seen) hts
+          simp only [capsNumeric, List.all_cons, keyStr, sp, Option.isSome_some, Bool.true_and] at this ⊢
+          exact this
+
+theorem fieldVal_capsOf_gen (ctx : Ctx) (hs : GoodTime ctx.s) (he : GoodTime ctx.e) (tpl : List Tok)
+    (hfill : ∀ isEnd f, Tok.ph (.time isEnd f) ∈ tpl → fillable f = true) (isEnd : Bool) (f : TField) :
+    fieldVal (capsOf ctx tpl []) isEnd f =
+      if Tok.ph (.time isEnd f) ∈ tpl then some (tval (if isEnd then ctx.e else ctx.s) f) else none := by
+  unfold fieldVal
+  rw [lookup_capsOf]
+  by_cases hm : Tok.ph (Key.time isEnd f) ∈ tpl
+  · have hf : fillable f = true := hfill _ _ hm
+    have hgt : GoodTime (if isEnd then ctx.e else ctx.s) := by cases isEnd <;> simpa
+    simp [hm, keyStr, (tstr_spec _ f hgt hf).2.2]
+  · simp [hm]
+
+theorem unambig_time_fillable (cfg : Cfg) (ctx : Ctx) :
+    ∀ tpl : List Tok, Unambig cfg ctx tpl →
+      ∀ isEnd f, Tok.ph (.time isEnd f) ∈ tpl → fillable f = true := by
+  intro tpl
+  induction tpl with
+  | nil => intro _ isEnd f h; simp at h
+  | cons t ts ih =>
+    intro hu isEnd f hm
+    cases t with
+    | star => exact absurd hu (by simp [Unambig])
+    | lit c =>
+      have := ih hu.2.2 isEnd f (by simpa using hm)
+      exact this
+    | ph k =>
+      cases k with
+      | user n => exact ih hu.2 isEnd f (by simpa using hm)
+      | time isEnd' f' =>
+        rcases List.mem_cons.mp hm with h | h
+        · simp only [Tok.ph.injEq, Key.time.injEq] at h
+          obtain ⟨_, rfl⟩ := h
+          exact hu.1
+        · exact ih hu.2 isEnd f h
+
+theorem unambig_user_fill (cfg : Cfg) (ctx : Ctx) :
+    ∀ tpl : List Tok, Unambig cfg ctx tpl → ∀ n, Tok.ph (.user n) ∈ tpl →
+      ∃ v, ctx.fill.lookup n = some v ∧ keyStr ctx (.user n) = v := by
+  intro tpl
+  induction tpl with
+  | nil => intro _ n h; simp at h
+  | cons t ts ih =>
+    intro hu n hm
+    cases t with
+    | star => exact absurd hu (by simp [Unambig])
+    | lit c => exact ih hu.2.2 n (by simpa using hm)
+    | ph k =>
+      cases k with
+      | time isEnd f => exact ih hu.2 n (by simpa using hm)
+      | user m =>
+        rcases List.mem_cons.mp hm with h | h
+        · simp only [Tok.ph.injEq, Key.user.injEq] at h
+          subst h
+          obtain ⟨ws, v, c0, ts', _, hfill, _⟩ := userOK_elim hu.1
+          exact ⟨v, hfill, by simp [keyStr, hfill]⟩
+        · exact ih hu.2 n h
+
+/-- the attributes `get_info` (mode filename) reports are the user captures of the parsed name -/
+theorem getInfo_filename_attrs (cfg : Cfg) (tc : Option Int) (hd : Info) (name : List Char)
+    (a b : DateTime) (attrs : Attrs) (h : getInfo cfg .filename tc hd name = .ok (a, b, attrs)) :
+    ∃ caps, parseFilename cfg name = .ok caps ∧ attrs = attrUpdate [] (userCaps caps) := by
+  unfold getInfo at h
+  cases hp : parseFilename cfg name with
+  | error e => simp [hp] at h
+  | ok caps =>
+    refine ⟨caps, rfl, ?_⟩
+    cases hr : retrieveTimeCoverage cfg caps with
+    | error e => simp [hp, hr] at h
+    | ok se =>
+      obtain ⟨st, en⟩ := se
+      simp only [hp, hr, Info.update] at h
+      cases hsf : singleFile cfg.path <;> cases st <;> cases en <;> cases tc <;>
+        simp [hsf] at h <;> first
+        | exact h.2.2.symm
+        | (split at h <;> simp at h <;> exact h.2.2.symm)
+
 end Template
